@@ -17,6 +17,10 @@ type flagset struct {
 	ClearCache bool   `json:"clear_cache,omitempty"`
 	Expiry     string `json:"expiry,omitempty"`  // "", "0", "1000h"
 	Timeout    string `json:"timeout,omitempty"` // "", "1s"
+	// Mode is the invocation mode: "" runs the tasks; the others load the remote
+	// Taskfile(s) but are read-only: "dry" (--dry), "status" (--status),
+	// "list-all" (--list-all), "summary" (--summary <tasks>).
+	Mode string `json:"mode,omitempty"`
 }
 
 func (f flagset) args() []string {
@@ -42,6 +46,9 @@ func (f flagset) args() []string {
 	if f.ClearCache {
 		a = append(a, "--clear-cache")
 	}
+	if f.Mode != "" {
+		a = append(a, "--"+f.Mode)
+	}
 	return a
 }
 
@@ -64,6 +71,18 @@ func (f flagset) String() string {
 }
 
 func (f flagset) offline() bool { return f.Offline || f.OfflineEnv }
+
+// readOnly: the invocation loads the Taskfile but is not meant to run commands.
+func (f flagset) readOnly() bool { return f.Mode != "" }
+
+// modeTag is appended to signatures of read-only invocations only, so that the
+// signatures of ordinary runs stay what they were.
+func (f flagset) modeTag() string {
+	if f.Mode == "" {
+		return ""
+	}
+	return " mode=" + f.Mode
+}
 
 // cacheTag: is a cache written "now-ish" still valid under this invocation's
 // expiry? Only 0 (default) and 1000h are ever used, so the answer does not
@@ -225,7 +244,7 @@ func (m *monitor) step(mode string, fl flagset, o *obs) verdict {
 		v.Judged = append(v.Judged, "105")
 		if o.Exit != 105 || ran {
 			v.Findings = append(v.Findings, finding{
-				fmt.Sprintf("C20 | HTTP-WITHOUT-INSECURE | exit=%d ran=%v", o.Exit, ran),
+				fmt.Sprintf("C20 | HTTP-WITHOUT-INSECURE | exit=%d ran=%v%s", o.Exit, ran, fl.modeTag()),
 				fmt.Sprintf("http:// Taskfile without --insecure: exit %d (want 105), trace %q (want empty); flags: %s", o.Exit, o.Trace, fl),
 			})
 		}
@@ -281,7 +300,7 @@ func (m *monitor) step(mode string, fl flagset, o *obs) verdict {
 					v.Inconc = append(v.Inconc, "fetch timed out against a healthy server (machine load): "+why)
 				} else {
 					v.Findings = append(v.Findings, finding{
-						fmt.Sprintf("C20 | NOT-104 | exit=%d ran=%v approved=%s", o.Exit, ran, had),
+						fmt.Sprintf("C20 | NOT-104 | exit=%d ran=%v approved=%s%s", o.Exit, ran, had, fl.modeTag()),
 						fmt.Sprintf("%s, no --yes and no terminal: exit %d (want 104), trace %q (want empty); flags: %s", why, o.Exit, o.Trace, fl),
 					})
 				}
@@ -292,7 +311,11 @@ func (m *monitor) step(mode string, fl flagset, o *obs) verdict {
 	// clause 2: an approved download stays runnable from the cache when the
 	// network is unavailable or --offline is given
 	if fl.Insecure && !fl.ClearCache && (fl.offline() || unavailable(mode)) && m.allApproved() {
-		if fl.Download && !fl.offline() {
+		if fl.readOnly() {
+			// the statement speaks of tasks staying runnable; what a read-only
+			// mode must print or return from the cache is not part of it
+			v.Judged = append(v.Judged, "notjudged:readonly+unavailable")
+		} else if fl.Download && !fl.offline() {
 			v.Judged = append(v.Judged, "notjudged:download+unavailable")
 		} else {
 			cause := faultTag(mode)
@@ -324,7 +347,7 @@ func (m *monitor) step(mode string, fl flagset, o *obs) verdict {
 				v.Judged = append(v.Judged, "106")
 				if o.Exit != 106 || ran {
 					v.Findings = append(v.Findings, finding{
-						fmt.Sprintf("C20 | OFFLINE-NO-CACHE | exit=%d ran=%v", o.Exit, ran),
+						fmt.Sprintf("C20 | OFFLINE-NO-CACHE | exit=%d ran=%v%s", o.Exit, ran, fl.modeTag()),
 						fmt.Sprintf("--offline and %s was never cached: exit %d (want 106), trace %q (want empty); flags: %s", f, o.Exit, o.Trace, fl),
 					})
 				}
@@ -334,7 +357,7 @@ func (m *monitor) step(mode string, fl flagset, o *obs) verdict {
 	}
 
 	// not a clause of the statement, but worth seeing: approved content on a healthy server
-	if fl.Insecure && !fl.ClearCache && mode == mUp && m.allApproved() && !o.deadline {
+	if fl.Insecure && !fl.ClearCache && !fl.readOnly() && mode == mUp && m.allApproved() && !o.deadline {
 		same := true
 		for _, s := range o.Served {
 			if !m.st[s.File].has(s.Ver) {
@@ -353,6 +376,9 @@ func (m *monitor) step(mode string, fl flagset, o *obs) verdict {
 		}
 		return v
 	}
+	// A run without --yes never approves anything, whatever its mode and exit
+	// status (--dry, --status, --list-all, --summary included): the state is only
+	// ever widened by what was handed out under --yes, and narrowed by what ran.
 	ranBy := map[string][]int{}
 	for _, mk := range o.markers {
 		ranBy[mk.File] = append(ranBy[mk.File], mk.Ver)
